@@ -20,13 +20,13 @@ theorem enter_env_one (vs : List LVal) (n m a : Nat) (xa : LVal) (hvs : vs.lengt
     source-level specification `GS.loop` (per block: automatic reseed when `reseed_counter > reseed_limit`, `Hash(V)`, then
     `V ← V + Hash(0x03 ‖ V) + C + reseed_counter`, counter + 1), the state object holds the state it ends in, the entropy script has lost exactly the
     deliveries the reseeds consumed; the public fields stay public; every other block keeps its values with labels that do not rise. -/
-theorem prng_generate_call (env : Env) (st : St) (es ed en : Expr) (bp bd : Nat) (Xp XD : Array LByte) (baseP based doff n ud : Nat) (g : GS)
+theorem prng_generate_call (cbv : Nat) (hk : CbOk cbv) (env : Env) (st : St) (es ed en : Expr) (bp bd : Nat) (Xp XD : Array LByte) (baseP based doff n ud : Nat) (g : GS)
     (hes : evalE env es = .ok (mkPtr bp baseP, .pub)) (hed : evalE env ed = .ok (mkPtr bd (based + doff), .pub)) (hen : evalE env en = .ok (n, .pub))
-    (hP : st.mem[bp]? = some ⟨Xp, baseP⟩) (ho : PObjV Xp g.V g.C g.rc g.rl) (hcb : PCb Xp ud) (hent : st.ent = g.ent)
+    (hP : st.mem[bp]? = some ⟨Xp, baseP⟩) (ho : PObjV Xp g.V g.C g.rc g.rl) (hcb : PCb Xp ud cbv) (hent : st.ent = g.ent)
     (hD : st.mem[bd]? = some ⟨XD, based⟩) (hpd : bp ≠ bd) (hal : baseP % 8 = 0) (hltP : baseP + Xp.size < ptrBase) (hltD : based + XD.size < ptrBase)
     (hin : doff + n ≤ XD.size) (hsz : st.mem.size + 7 < 2 ^ 30) :
     RunsTo prog (.call none idx_tinyjambu_prng_generate [es, ed, en]) env st (fun sig e s => sig = .normal ∧ e = env ∧ s.ent = (g.loop n).2.ent ∧ s.mem.size = st.mem.size ∧
-      (∃ Xp', s.mem[bp]? = some ⟨Xp', baseP⟩ ∧ Xp'.size = Xp.size ∧ PObjV Xp' (g.loop n).2.V (g.loop n).2.C (g.loop n).2.rc (g.loop n).2.rl ∧ PCb Xp' ud) ∧
+      (∃ Xp', s.mem[bp]? = some ⟨Xp', baseP⟩ ∧ Xp'.size = Xp.size ∧ PObjV Xp' (g.loop n).2.V (g.loop n).2.C (g.loop n).2.rc (g.loop n).2.rl ∧ PCb Xp' ud cbv) ∧
       (∃ XD', s.mem[bd]? = some ⟨XD', based⟩ ∧ XD'.size = XD.size ∧ BytesV XD' doff (g.loop n).1 ∧ (g.loop n).1.length = n ∧
         ∀ q, (q < doff ∨ doff + n ≤ q) → ORel VLe XD'[q]? XD[q]?) ∧
       ∀ j, j ≠ bp → j ≠ bd → ORel (KeepW (fun _ => False) (fun _ => False)) s.mem[j]? st.mem[j]?) := by
@@ -43,7 +43,7 @@ theorem prng_generate_call (env : Env) (st : St) (es ed en : Expr) (bp bd : Nat)
     intro j hj; rw [← hm1, Array.getElem?_push]; simp only [show ¬ j = st.mem.size from by omega, if_false]
   have hm1n : mem1[st.mem.size]? = some ⟨Array.replicate 32 (0, .undef), 0⟩ := by rw [← hm1, Array.getElem?_push]; simp
   have hm1sz : mem1.size = st.mem.size + 1 := by rw [← hm1, Array.size_push]
-  let G : GGeo := ⟨st.mem.size, bp, baseP, Xp.size, bd, based, doff, n, ud, XD, hbpN, hbdN, hpd, hal, ho.sz, hltP, hltD, hin, hsz⟩
+  let G : GGeo := ⟨st.mem.size, bp, baseP, Xp.size, bd, based, doff, n, ud, cbv, XD, hk, hbpN, hbdN, hpd, hal, ho.sz, hltP, hltD, hin, hsz⟩
   refine runs_seq (Q := fun e s => e = setVar E0 3 (mkPtr bp baseP, .pub) ∧ s = { st with mem := mem1 }) (runs_assign _ (by simp only [evalE, hE0v 0 _ rfl, reduceCtorEq, if_false]) ⟨rfl, rfl, rfl⟩) ?_
   intro e1 s1 ⟨he1, hs1⟩; rw [he1, hs1]
   generalize hE1 : setVar E0 3 (mkPtr bp baseP, .pub) = E1
@@ -55,11 +55,11 @@ theorem prng_generate_call (env : Env) (st : St) (es ed en : Expr) (bp bd : Nat)
   have e1_5 : E1[5]? = some (mkPtr st.mem.size 0, .pub) := by rw [← hE1, get_set_ne _ _ _ _ (by decide)]; exact hE05
   -- the post-condition for a memory that is `mem1` on the caller's blocks up to the relations of the invariant
   have fin : ∀ (s : St) (g' : GS) (out : Bytes), s.ent = g'.ent → s.mem.size = st.mem.size + 1 →
-      (∃ Xp', s.mem[bp]? = some ⟨Xp', baseP⟩ ∧ Xp'.size = Xp.size ∧ PObjV Xp' g'.V g'.C g'.rc g'.rl ∧ PCb Xp' ud) →
+      (∃ Xp', s.mem[bp]? = some ⟨Xp', baseP⟩ ∧ Xp'.size = Xp.size ∧ PObjV Xp' g'.V g'.C g'.rc g'.rl ∧ PCb Xp' ud cbv) →
       (∃ XD', s.mem[bd]? = some ⟨XD', based⟩ ∧ XD'.size = XD.size ∧ BytesV XD' doff out ∧ ∀ q, (q < doff ∨ doff + out.length ≤ q) → ORel VLe XD'[q]? XD[q]?) → out.length = n →
       (∀ j, j < st.mem.size → j ≠ bp → j ≠ bd → ORel (KeepW (fun _ => False) (fun _ => False)) s.mem[j]? st.mem[j]?) →
       (s.ent = g'.ent ∧ (s.mem.extract 0 st.mem.size).size = st.mem.size ∧
-        (∃ Xp', (s.mem.extract 0 st.mem.size)[bp]? = some ⟨Xp', baseP⟩ ∧ Xp'.size = Xp.size ∧ PObjV Xp' g'.V g'.C g'.rc g'.rl ∧ PCb Xp' ud) ∧
+        (∃ Xp', (s.mem.extract 0 st.mem.size)[bp]? = some ⟨Xp', baseP⟩ ∧ Xp'.size = Xp.size ∧ PObjV Xp' g'.V g'.C g'.rc g'.rl ∧ PCb Xp' ud cbv) ∧
         (∃ XD', (s.mem.extract 0 st.mem.size)[bd]? = some ⟨XD', based⟩ ∧ XD'.size = XD.size ∧ BytesV XD' doff out ∧ out.length = n ∧ ∀ q, (q < doff ∨ doff + n ≤ q) → ORel VLe XD'[q]? XD[q]?) ∧
         ∀ j, j ≠ bp → j ≠ bd → ORel (KeepW (fun _ => False) (fun _ => False)) (s.mem.extract 0 st.mem.size)[j]? st.mem[j]?) := by
     intro s g' out h1 h2 h3 h4 hl h5
